@@ -219,6 +219,7 @@ def ghost_env(bound):
         "trail_top": lambda e: (list(get_trail(e)) or [Undefined()])[0],
         "has_key": lambda d, k: _hashable(k) and k in d,
         "forall_val": None,
+        "contains": lambda coll, x: any(_eq(x, c) and True for c in coll),
         "same_items": lambda a, b: type(a) is tuple and list(a) == _elems_of(b),
         "err_rank": lambda e: 2 * getattr(e, "_stub_call_index", -10 ** 6) + (0 if isinstance((list(get_trail(e)) or [None])[0], _itemkey()) else 1),
     }
@@ -267,6 +268,8 @@ def native_values(kind, name, stubs):
         return kind[1]
     if isinstance(kind, str) and kind.startswith("seq:"):
         return tuple(stubs[f"{name}#{i}"] for i in range(SEQ_N))
+    if isinstance(kind, tuple) and kind[0] == "tuple":
+        return tuple(stubs[f"{name}#{i}"] for i in range(len(kind[1])))
     if kind in ("LD", "ANY"):
         return stubs[name]
     if kind == "DUMP":
@@ -310,6 +313,10 @@ def stub_params(c, label):
             for i in range(SEQ_N):
                 names.append(f"{n}#{i}")
                 flat[f"{n}#{i}"] = k[4:]
+        elif isinstance(k, tuple) and k[0] == "tuple":
+            for i, kk in enumerate(k[1]):
+                names.append(f"{n}#{i}")
+                flat[f"{n}#{i}"] = kk
     kinds = dict(kinds)
     kinds.update(flat)
     return names, kinds
@@ -363,6 +370,7 @@ def run_scenario(c, mod, sc: Scenario, clauses, param="data"):
         rec = recorded
         env["elems"] = lambda x, rec=rec, data=data: rec if x is data else _elems_of(x)
         env["same_items"] = lambda a, b, rec=rec, data=data: type(a) is tuple and list(a) == (rec if b is data else _elems_of(b))
+    env.update(c.consts)
     for gname in c.ghosts:
         if gname in sc.stubs:
             env[gname] = sc.stubs[gname]
